@@ -278,6 +278,21 @@ def finish(prop, tier, seed, t0, res, rule, assumptions, oracle_version=None):
             known_rec[rec['id']] = rec
         else:
             new.append(f)
+    if os.environ.get('VERIF_DUMP'):
+        # maintenance only (never part of a registered check): dump every unexplained failure for review
+        with open(os.environ['VERIF_DUMP'], 'w') as fh:
+            for f in new:
+                fh.write(json.dumps(f.to_json(), ensure_ascii=False, default=repr) + '\n')
+    if os.environ.get('VERIF_TRIAGE'):
+        bysig = collections.OrderedDict()
+        for f in new:
+            bysig.setdefault(f.sig, []).append(f)
+        print('TRIAGE %s: %d unexplained failing cases in %d signatures' % (prop, len(new), len(bysig)))
+        for sig, fs in sorted(bysig.items(), key=lambda kv: -len(kv[1])):
+            print('%7d  %s' % (len(fs), sig))
+            for f in fs[:int(os.environ.get('VERIF_TRIAGE_N', '3'))]:
+                print('           in=%s obs=%s ref=%s' % (json.dumps(f.inp, ensure_ascii=False, default=repr)[:160], json.dumps(f.obs, ensure_ascii=False, default=repr)[:160],
+                                                          json.dumps(f.ref, ensure_ascii=False, default=repr)[:160]))
     rdir = os.path.join(ROOT, 'replays', prop)
     lines = []
     for kid in sorted(known):
